@@ -5,6 +5,7 @@ import (
 	"fmt"
 	"sort"
 	"strings"
+	"sync"
 	"testing"
 
 	sjson "go.starlark.net/lib/json"
@@ -135,7 +136,10 @@ var mutators = []mutator{
 	{"ior", "dict", helper("m_ior")},
 	{"augkey", "dict", helper("m_augkey")},
 	{"api-setkey", "dict", func(_ *starlark.Thread, x starlark.Value) error { return x.(*starlark.Dict).SetKey(i1, i1) }},
-	{"api-delete", "dict", func(_ *starlark.Thread, x starlark.Value) error { _, _, err := x.(*starlark.Dict).Delete(i2); return err }},
+	{"api-delete", "dict", func(_ *starlark.Thread, x starlark.Value) error {
+		_, _, err := x.(*starlark.Dict).Delete(i2)
+		return err
+	}},
 	{"api-clear", "dict", func(_ *starlark.Thread, x starlark.Value) error { return x.(*starlark.Dict).Clear() }},
 
 	{"add", "set", method("add", i1)},
@@ -209,17 +213,17 @@ func scenarioSrc(c Case) string {
 	w("    return 1 // 0")
 	w("def scenario(x):")
 	body := func(ind string) {
-		w(ind+"a = step(x)")
-		w(ind+"if a == \"break\":")
-		w(ind+"    break")
-		w(ind+"if a == \"continue\":")
-		w(ind+"    continue")
-		w(ind+"if a == \"return\":")
-		w(ind+"    return 1")
-		w(ind+"if a == \"error\":")
-		w(ind+"    y = 1 // 0")
-		w(ind+"if a == \"nested-error\":")
-		w(ind+"    nested_fail()")
+		w(ind + "a = step(x)")
+		w(ind + "if a == \"break\":")
+		w(ind + "    break")
+		w(ind + "if a == \"continue\":")
+		w(ind + "    continue")
+		w(ind + "if a == \"return\":")
+		w(ind + "    return 1")
+		w(ind + "if a == \"error\":")
+		w(ind + "    y = 1 // 0")
+		w(ind + "if a == \"nested-error\":")
+		w(ind + "    nested_fail()")
 	}
 	switch c.Construct {
 	case "for":
@@ -465,11 +469,11 @@ type SeqCase struct {
 }
 
 var seqForms = map[string]string{
-	"unpack":      "def scenario(x):\n    %s = x\n    probe(x)\n    return 0\n",
-	"unpack-list": "def scenario(x):\n    [%s] = x\n    probe(x)\n    return 0\n",
-	"for-unpack":  "def scenario(x):\n    for %s in [x]:\n        pass\n    probe(x)\n    return 0\n",
-	"comp-unpack": "def scenario(x):\n    y = [1 for %s in [x]]\n    probe(x)\n    return 0\n",
-	"star-args":   "def callee(%s):\n    return 1\ndef scenario(x):\n    callee(*x)\n    probe(x)\n    return 0\n",
+	"unpack":       "def scenario(x):\n    %s = x\n    probe(x)\n    return 0\n",
+	"unpack-list":  "def scenario(x):\n    [%s] = x\n    probe(x)\n    return 0\n",
+	"for-unpack":   "def scenario(x):\n    for %s in [x]:\n        pass\n    probe(x)\n    return 0\n",
+	"comp-unpack":  "def scenario(x):\n    y = [1 for %s in [x]]\n    probe(x)\n    return 0\n",
+	"star-args":    "def callee(%s):\n    return 1\ndef scenario(x):\n    callee(*x)\n    probe(x)\n    return 0\n",
 	"star-builtin": "def scenario(x):\n    # %s\n    max(0, *x)\n    probe(x)\n    return 0\n",
 }
 
@@ -626,6 +630,10 @@ func callees() map[string]func() starlark.Value {
 			out[rn+"."+m] = func() starlark.Value { v, _ := mk().(starlark.HasAttrs).Attr(m); return v }
 		}
 	}
+	for name, fn := range opFns() {
+		fn := fn
+		out["op:"+name] = func() starlark.Value { return fn }
+	}
 	for _, m := range []string{"encode", "encode_indent", "decode", "indent"} {
 		m := m
 		if v, ok := sjson.Module.Members[m]; ok {
@@ -633,6 +641,34 @@ func callees() map[string]func() starlark.Value {
 		}
 	}
 	return out
+}
+
+// Operators and comprehensions over two collections, as callees "op:<text>" (compiled Starlark functions):
+// set comparison and set algebra iterate an operand, dict/set equality walks both.
+var opTexts = []string{"a <= b", "a < b", "a >= b", "a > b", "a == b", "a != b", "a | b", "a & b", "a - b", "a ^ b", "a + b", "a in b", "a not in b",
+	"[x for x in a if x in b]", "{x: 1 for x in a if x not in b}", "[(x, y) for x in a for y in b]", "sorted(a) == sorted(b)", "(a, [a]) == (b, [b])", "[a] < [b]", "{1: a} == {1: b}"}
+
+var (
+	opOnce sync.Once
+	opMap  map[string]starlark.Value
+)
+
+func opFns() map[string]starlark.Value {
+	opOnce.Do(func() {
+		var sb strings.Builder
+		for i, o := range opTexts {
+			fmt.Fprintf(&sb, "def op_%d(a, b, c = None):\n    return %s\n", i, o)
+		}
+		g, err := starlark.ExecFileOptions(&syntax.FileOptions{Set: true}, &starlark.Thread{}, "ops.star", sb.String(), nil)
+		if err != nil {
+			panic("ops.star: " + err.Error())
+		}
+		opMap = map[string]starlark.Value{}
+		for i, o := range opTexts {
+			opMap[o] = g[fmt.Sprintf("op_%d", i)]
+		}
+	})
+	return opMap
 }
 
 func checkBuiltin(c BuiltinCase) error {
@@ -648,6 +684,21 @@ func checkBuiltin(c BuiltinCase) error {
 		args[i] = starlark.MakeInt(1)
 		if i == c.Pos {
 			args[i] = x
+		}
+	}
+	if strings.HasPrefix(c.Callee, "op:") {
+		// the other operand: an equal collection of the same kind (2 arguments), the collection itself (3 arguments)
+		var other starlark.Value = x
+		if c.Argc < 3 {
+			other = makeElems(c.Coll, c.Elems)
+		}
+		for i := range args {
+			if i != c.Pos {
+				args[i] = other
+			}
+		}
+		if c.Argc == 1 {
+			args = starlark.Tuple{x, makeElems(c.Coll, "ints")}
 		}
 	}
 	thread := &starlark.Thread{Name: "c06b"}
@@ -715,8 +766,8 @@ func TestPropBuiltins(t *testing.T) {
 type PushCase struct {
 	Coll  string `json:"coll"`
 	N     int    `json:"n"`
-	API   string `json:"api"`   // method | generic
-	Stop  int    `json:"stop"`  // break after this many elements (0 = run to the end)
+	API   string `json:"api"`  // method | generic
+	Stop  int    `json:"stop"` // break after this many elements (0 = run to the end)
 	Mut   string `json:"mut"`
 	Panic bool   `json:"panic"` // leave by panicking inside the loop body
 }
@@ -748,6 +799,26 @@ func checkPush(c PushCase) error {
 	func() {
 		defer func() { recover() }()
 		switch {
+		case c.API == "elements-of-dict":
+			// *Dict has no Elements method: the generic function's own iterator-based fallback
+			for range starlark.Elements(x.(starlark.Iterable)) {
+				if !bodyFn() {
+					break
+				}
+			}
+		case c.API == "plain-iterable":
+			// a host value that only implements Iterable (no push-iterator method): the fallback again
+			for range starlark.Elements(plainIterable{x.(starlark.Iterable)}) {
+				if !bodyFn() {
+					break
+				}
+			}
+		case c.API == "plain-mapping":
+			for range starlark.Entries(plainMapping{x.(*starlark.Dict)}) {
+				if !bodyFn() {
+					break
+				}
+			}
 		case c.API == "generic" && c.Coll == "dict":
 			for range starlark.Entries(x.(*starlark.Dict)) {
 				if !bodyFn() {
@@ -793,6 +864,28 @@ func checkPush(c PushCase) error {
 	return nil
 }
 
+// plainIterable hides everything but the Iterable interface of a collection.
+type plainIterable struct{ it starlark.Iterable }
+
+func (p plainIterable) String() string             { return "plainIterable" }
+func (p plainIterable) Type() string               { return "plainIterable" }
+func (p plainIterable) Freeze()                    {}
+func (p plainIterable) Truth() starlark.Bool       { return true }
+func (p plainIterable) Hash() (uint32, error)      { return 0, fmt.Errorf("unhashable") }
+func (p plainIterable) Iterate() starlark.Iterator { return p.it.Iterate() }
+
+// plainMapping is an IterableMapping without an Entries method.
+type plainMapping struct{ d *starlark.Dict }
+
+func (p plainMapping) String() string                                     { return "plainMapping" }
+func (p plainMapping) Type() string                                       { return "plainMapping" }
+func (p plainMapping) Freeze()                                            {}
+func (p plainMapping) Truth() starlark.Bool                               { return true }
+func (p plainMapping) Hash() (uint32, error)                              { return 0, fmt.Errorf("unhashable") }
+func (p plainMapping) Iterate() starlark.Iterator                         { return p.d.Iterate() }
+func (p plainMapping) Get(k starlark.Value) (starlark.Value, bool, error) { return p.d.Get(k) }
+func (p plainMapping) Items() []starlark.Tuple                            { return p.d.Items() }
+
 var subPush = vk.Register("push-iterator", checkPush)
 
 func TestPropPushIterators(t *testing.T) {
@@ -800,7 +893,11 @@ func TestPropPushIterators(t *testing.T) {
 	vk.Enum(t, subPush, func(yield func(PushCase) bool) {
 		i := 0
 		for _, coll := range []string{"list", "dict", "set"} {
-			for _, api := range []string{"method", "generic"} {
+			apis := []string{"method", "generic", "plain-iterable"}
+			if coll == "dict" {
+				apis = append(apis, "elements-of-dict", "plain-mapping")
+			}
+			for _, api := range apis {
 				for _, mut := range mutNames(coll) {
 					for _, n := range []int{0, 1, 3} {
 						for stop := 0; stop <= n; stop++ {
